@@ -451,13 +451,10 @@ func (c *Conn) reconnectLoop() {
 		c.uplink = append(ops, c.pending...)
 		c.pending = nil
 		c.pendSize = 0
-		wasInit := c.initc
+		// nats.go v1.31.0 queues the Reconnected callback here, also when this completes an initial connect that was
+		// retried (RetryOnFailedConnect): confirmed by the conformance suite against the real library
 		c.initc = false
-		if wasInit {
-			if cb := c.Opts.ConnectedCB; cb != nil {
-				c.pushCB(func() { cb(c) })
-			}
-		} else if cb := c.Opts.ReconnectedCB; cb != nil {
+		if cb := c.Opts.ReconnectedCB; cb != nil {
 			c.pushCB(func() { cb(c) })
 		}
 		w.wake()
